@@ -89,6 +89,15 @@ func tyExpr(x any) ast.BaseTerm {
 		return symbols.NewListType(tyExpr(t[1]))
 	case "tmap":
 		return symbols.NewMapType(tyExpr(t[1]), tyExpr(t[2]))
+	case "ttagged":
+		tag, _ := ast.Name("/" + t[1].(string))
+		var pairs []ast.BaseTerm
+		for _, v := range t[2].([]any) {
+			vl := v.([]any)
+			name, _ := ast.Name("/" + vl[0].(string))
+			pairs = append(pairs, name, tyExpr([]any{"tstruct", vl[1]}))
+		}
+		return symbols.NewTaggedUnionType(tag, pairs...)
 	case "tstruct":
 		var args []ast.BaseTerm
 		for _, f := range t[1].([]any) {
